@@ -272,7 +272,7 @@ def mutated (s : Sys) (tk : TDef) : TDef :=
     `loader.created = True`; `"reset generator"` → `node.reset_task(self.tasks[name], self._add_task(node))` -/
 def finishLoader (s : Sys) (n : Name) (nd : Node) (l : LId) (tk' : TDef) : Sys :=
   match s.tasks n with
-  | none => { s with susp := .err .crash }
+  | none => { s with created := fun k => if k = l then true else s.created k, susp := .err .crash }
   | some cur =>
     if cur.oid = tk'.oid then
       { s with created := fun k => if k = l then true else s.created k,
